@@ -486,13 +486,40 @@ def _outer(p):
                 yield x
 
 
+def _irref(p):
+    t = p["t"]
+    return t in ("cap", "wild") or (t == "as" and _irref(p["a"][0])) or (t == "or" and any(_irref(c) for c in p["a"]))
+
+
+def _simple(p):
+    """what MatchCaseNodes turns into an if-clause (is_simple_value_comparison): literal, value, capture, wildcard,
+    alternatives of those that bind nothing; an as-target does not change it"""
+    p = _under_as(p)
+    return p["t"] in ("lit", "val", "cap", "wild") or (p["t"] == "or" and all(_simple(c) and not names(c) for c in p["a"]))
+
+
+def _structural_alt(p):
+    return p["t"] in ("seq", "map", "cls") or (p["t"] == "or" and any(_structural_alt(c) for c in p["a"]))
+
+
 def hazards(stmt):
     """features of the statement (spec side) that known findings refer to: {feature: first case that has it}"""
     hz = {}
 
     def add(name, j):
         hz.setdefault(name, j)
+    regular = None      # the nearest preceding case that stays a MatchCaseNode (not simple, or guarded)
     for j, c in enumerate(stmt["cases"], 1):
+        if _simple(c["p"]) and not c["g"]:
+            if regular is not None and not _irref(regular["p"]) and set(names(regular["p"])) & set(names(c["p"])):
+                add("name-rebound-in-substituted-case", j)
+        else:
+            regular = c
+        for p in walk(c["p"]):
+            if p["t"] in ("seq", "cls"):
+                for k in p["a"]:
+                    if k["t"] == "or" and _irref(k) and not names(k) and _structural_alt(k):
+                        add("irrefutable-alternatives-with-structural-alternative", j)
         for p in _outer(c["p"]):
             if p["t"] == "seq" and any(k["t"] not in ("wild", "starw") for k in p["a"]):
                 add("sequence-pattern-on-subject", j)       # a sequence pattern that takes items out of the subject itself
